@@ -101,6 +101,7 @@ struct TimeGhostImpl : TimeGhost {
         break;
       case C_EXIT:
         daemon_ready = false; last_exit_clean = (e.a == 0);
+        alrm_obligation = false; alrm_countdown = 0; alrm_waiting.clear();   // an ALRM that reached a daemon on its way out dies with it: "everything is due now" lives in memory only
         for (auto &pr : mt) for (int c = 0; c < 2; c++) { ChanState &cs = pr.second.c[c]; if (cs.outstanding > 0 || (spawner_lost && cs.in_pass)) { cs.early_ok = true; cs.due_known = false; cs.expired_pass_done = false; if (spawner_lost) cs.in_pass = false; } }
         spawner_lost = false;
         if (last_exit_clean) for (auto &pr : mt) for (int c = 0; c < 2; c++) { ChanState &cs = pr.second.c[c]; if (cs.in_pass) { cs.term_interrupted = true; cs.lost_due = cs.due; cs.due_known = false; k->probe("term_during_open_pass"); } }
